@@ -316,50 +316,59 @@ func checkOrderedEmitters(c *core.Ctx) {
 			c.Unknown("ORD5L", key, 0, "anchor not found")
 			continue
 		}
-		info := fn.Info()
 		asc, desc := 0, 0
-		core.WalkStack(fn.Decl.Body, func(n ast.Node, stack []ast.Node) bool {
-			call, ok := n.(*ast.CallExpr)
-			if !ok {
-				return true
+		// the function and the helpers it hands the tree to (the emitter may be a method of its own)
+		seenProd := map[*core.FuncRef]bool{}
+		for _, h := range helperClosure(p, fn) {
+			// produceOrderByItems is a site of its own: not counted again as OrderSensitiveTransform.Run's helper
+			if h != fn && p.FName(h) == "execution/nodes.produceOrderByItems" || seenProd[h] {
+				continue
 			}
-			f, ok := core.Callee(info, call).(*types.Func)
-			if !ok || f.Pkg() == nil || f.Pkg().Path() != "github.com/google/btree" {
-				return true
-			}
-			switch {
-			case f.Name() == "Ascend":
-				asc++
-			case strings.HasPrefix(f.Name(), "Descend") || strings.HasPrefix(f.Name(), "AscendGreater") || strings.HasPrefix(f.Name(), "AscendLess") || strings.HasPrefix(f.Name(), "AscendRange"):
-				desc++
-				c.Bad("ORD5L", key+"/"+f.Name(), call.Pos(), 1, "ordered output must walk the whole tree in ascending order (Ascend); "+f.Name()+" changes which rows come first")
-			case f.Name() == "DeleteMin":
-				c.Bad("ORD5L", key+"/DeleteMin", call.Pos(), 1, "the bounded-tree optimisation must drop the largest item (DeleteMax); DeleteMin drops rows that belong to the first n")
-			case f.Name() == "DeleteMax":
-				// must sit under `… && noRetractionsPossible && Len() > limit`
-				ok := false
-				for i := len(stack) - 1; i >= 0; i-- {
-					if is, isIf := stack[i].(*ast.IfStmt); isIf {
-						cond := core.ExprStr(is.Cond)
-						conj := strings.Split(cond, "&&")
-						hasNR, hasLen := false, false
-						for _, cj := range conj {
-							cj = strings.TrimSpace(cj)
-							if strings.HasSuffix(cj, "noRetractionsPossible") && !strings.HasPrefix(cj, "!") {
-								hasNR = true
-							}
-							if strings.Contains(cj, "Len()") && strings.Contains(cj, ">") && strings.Contains(strings.ToLower(cj), "limit") {
-								hasLen = true
-							}
-						}
-						ok = hasNR && hasLen && !strings.Contains(cond, "||")
-						break
-					}
+			seenProd[h] = true
+			info := h.Info()
+			core.WalkStack(h.Decl.Body, func(n ast.Node, stack []ast.Node) bool {
+				call, ok := n.(*ast.CallExpr)
+				if !ok {
+					return true
 				}
-				c.Decide(ok, "ORD5L", key+"/DeleteMax", call.Pos(), 1, "DeleteMax only under noRetractionsPossible ∧ Len() > limit", "DeleteMax must be guarded by noRetractionsPossible && Len() > limit: with retractions a dropped row may be needed again")
-			}
-			return true
-		})
+				f, ok := core.Callee(info, call).(*types.Func)
+				if !ok || f.Pkg() == nil || f.Pkg().Path() != "github.com/google/btree" {
+					return true
+				}
+				switch {
+				case f.Name() == "Ascend":
+					asc++
+				case strings.HasPrefix(f.Name(), "Descend") || strings.HasPrefix(f.Name(), "AscendGreater") || strings.HasPrefix(f.Name(), "AscendLess") || strings.HasPrefix(f.Name(), "AscendRange"):
+					desc++
+					c.Bad("ORD5L", key+"/"+f.Name(), call.Pos(), 1, "ordered output must walk the whole tree in ascending order (Ascend); "+f.Name()+" changes which rows come first")
+				case f.Name() == "DeleteMin":
+					c.Bad("ORD5L", key+"/DeleteMin", call.Pos(), 1, "the bounded-tree optimisation must drop the largest item (DeleteMax); DeleteMin drops rows that belong to the first n")
+				case f.Name() == "DeleteMax":
+					// must sit under `… && noRetractionsPossible && Len() > limit`
+					ok := false
+					for i := len(stack) - 1; i >= 0; i-- {
+						if is, isIf := stack[i].(*ast.IfStmt); isIf {
+							cond := core.ExprStr(is.Cond)
+							conj := strings.Split(cond, "&&")
+							hasNR, hasLen := false, false
+							for _, cj := range conj {
+								cj = strings.TrimSpace(cj)
+								if strings.HasSuffix(cj, "noRetractionsPossible") && !strings.HasPrefix(cj, "!") {
+									hasNR = true
+								}
+								if strings.Contains(cj, "Len()") && strings.Contains(cj, ">") && strings.Contains(strings.ToLower(cj), "limit") {
+									hasLen = true
+								}
+							}
+							ok = hasNR && hasLen && !strings.Contains(cond, "||")
+							break
+						}
+					}
+					c.Decide(ok, "ORD5L", key+"/DeleteMax", call.Pos(), 1, "DeleteMax only under noRetractionsPossible ∧ Len() > limit", "DeleteMax must be guarded by noRetractionsPossible && Len() > limit: with retractions a dropped row may be needed again")
+				}
+				return true
+			})
+		}
 		if s.fn != "(*OrderSensitiveTransform).Run" {
 			c.Decide(asc > 0 && desc == 0, "ORD5L", key+"/Ascend", fn.Decl.Pos(), asc, fmt.Sprintf("%d Ascend walks", asc), "no Ascend walk of the ordered tree found")
 		}
